@@ -27,6 +27,11 @@ pub struct Scenario {
     pub fill_seed: u64,
     /// size of a file already at the output path (0 = none)
     pub pre_existing: usize,
+    /// what is at the output path before the call besides `pre_existing`: "" (nothing or the
+    /// stale file), "dir" (a directory: the call cannot succeed), "symlink" (a symbolic link to a
+    /// stale file elsewhere), "dangling" (a symbolic link to nothing)
+    #[serde(default)]
+    pub pre_kind: String,
     pub write_cap: usize,
     pub rules: Vec<RuleSpec>,
     /// RLIMIT_FSIZE during the call: the kernel's own "disk full at byte n"
@@ -163,6 +168,7 @@ pub fn scenario_shape(tier: &str, base_seed: u64, g: u64) -> Scenario {
             fill: if len >= 65536 { "addr".into() } else { fills[r.usize(2)].into() },
             fill_seed: seed,
             pre_existing: if r.chance(1, 4) { len * 4 + 100 } else { 0 },
+            pre_kind: String::new(),
             write_cap: 0,
             rules: vec![],
             fsize_limit: None,
@@ -202,6 +208,12 @@ pub fn scenario_shape(tier: &str, base_seed: u64, g: u64) -> Scenario {
         fill: fill.into(),
         fill_seed: seed,
         pre_existing: if r.chance(1, 3) { len * 4 + 64 + r.usize(100) } else { 0 },
+        pre_kind: match r.below(16) {
+            0 => "dir".into(),
+            1 => "symlink".into(),
+            2 => "dangling".into(),
+            _ => String::new(),
+        },
         write_cap,
         rules: vec![],
         fsize_limit: None,
@@ -232,6 +244,22 @@ pub fn execute(sc: &Scenario, scratch: &Scratch, budget: u64) -> Result<RunOut, 
         }
         junk.truncate(sc.pre_existing);
         std::fs::write(&out_path, &junk).map_err(|e| e.to_string())?;
+    }
+    match sc.pre_kind.as_str() {
+        "dir" => {
+            let _ = std::fs::remove_file(&out_path);
+            std::fs::create_dir_all(&out_path).map_err(|e| e.to_string())?;
+        }
+        "symlink" | "dangling" => {
+            let _ = std::fs::remove_file(&out_path);
+            std::fs::create_dir_all(scratch.path("elsewhere")).map_err(|e| e.to_string())?;
+            let target = scratch.path("elsewhere/target.hex");
+            if sc.pre_kind == "symlink" {
+                std::fs::write(&target, b"STALE-TARGET-OF-THE-LINK, LONGER THAN SMALL OUTPUTS ........................................\n").map_err(|e| e.to_string())?;
+            }
+            std::os::unix::fs::symlink(&target, &out_path).map_err(|e| e.to_string())?;
+        }
+        _ => {}
     }
     let img = image(sc.len, &sc.fill, sc.fill_seed);
     let other = other_image(sc.len, sc.fill_seed);
@@ -323,7 +351,8 @@ fn len_class(len: usize) -> &'static str {
 }
 
 fn faulted(sc: &Scenario) -> bool {
-    !sc.rules.is_empty() || sc.write_cap > 0 || sc.fsize_limit.is_some()
+    // a directory at the output path is a fault of the environment: the call cannot succeed
+    !sc.rules.is_empty() || sc.write_cap > 0 || sc.fsize_limit.is_some() || sc.pre_kind == "dir"
 }
 
 /// Judge one executed scenario. `fired` = a rule fired or the kernel limit bit.
@@ -547,7 +576,9 @@ pub fn worker(cfg: &WorkerCfg, emit: &mut dyn FnMut(Violation)) -> Stats {
         stats.probe("empty_image", sc.len == 0);
         stats.probe("write_split_3_or_more_ways", nwrites >= 4);
         stats.probe("fault_on_final_crlf_write", out.state.trace.iter().any(|e| e.call == Call::Write && e.rule >= 0 && e.req == 2));
-        stats.probe("pre_existing_longer_file", sc.pre_existing > 0);
+        stats.probe("pre_existing_longer_file", sc.pre_existing > 0 && sc.pre_kind.is_empty());
+        stats.probe("output_path_is_a_directory", sc.pre_kind == "dir");
+        stats.probe("output_path_is_a_symbolic_link", sc.pre_kind == "symlink" || sc.pre_kind == "dangling");
         stats.probe("largest_flash_image", sc.len == MAX_FLASH);
         stats.probe("call_after_a_failed_call_on_the_same_thread", sc.prior_failed_call.is_some());
         stats.probe("image_crosses_1MiB_segment_limit", sc.len > 0x10_0000);
@@ -629,6 +660,11 @@ pub fn shrink(scv: &Value) -> Vec<Value> {
     if sc.pre_existing > 0 {
         let mut s = sc.clone();
         s.pre_existing = 0;
+        push(s);
+    }
+    if !sc.pre_kind.is_empty() {
+        let mut s = sc.clone();
+        s.pre_kind = String::new();
         push(s);
     }
     if sc.prior_failed_call.is_some() {
